@@ -46,6 +46,9 @@ class HashGlobalVar(Expression):
 
     @contextmanager
     def get_address(self, dst, long, force=False):
+        # if r0 is in use, it is restored after the lookup: the address
+        # cannot stay there
+        force = force or 0 in self.ebpf.owners
         with self.ebpf.save_registers([i for i in range(6) if i != dst]), \
                 self.ebpf.get_stack(4) as stack:
             self.ebpf.append(Opcode.ST, 10, 0, stack, self.count)
